@@ -47,8 +47,8 @@ impl LegacyV1_4 {
             return Err(ProtocolFormat.context("Expected 0xFF"));
         }
 
-        let length = buffer.read::<u16>()? * 2;
-        error_by_expected_size((length + 3) as usize, data.len())?;
+        let length = buffer.read::<u16>()? as usize * 2;
+        error_by_expected_size(length + 3, data.len())?;
 
         if LegacyV1_6::is_protocol(&mut buffer)? {
             return LegacyV1_6::get_response(&mut buffer);
